@@ -1104,6 +1104,9 @@ class HistogramBase(abc.ABC):
                 self._widen_for_sum(other, with_missed=False)
                 self._assign_frequencies(self.frequencies + other.frequencies)
                 self.errors2 = self.errors2 + other.errors2
+                if not other.keep_missed:
+                    # (As above: what the other one dropped is known to nobody)
+                    self.keep_missed = False
             else:
                 raise ValueError("Incompatible binning")
             if hasattr(self, "_stats") and hasattr(other, "_stats"):
